@@ -78,7 +78,7 @@ def main():
             for l in lines[:3]:
                 print("   ", l)
         shutil.rmtree(out_dir, ignore_errors=True)
-        meta["detected_by"] = [c for c, v in meta["checks"].items() if v["exit"] == 1 and v["violations"] > 0]
+        meta["detected_by"] = [c for c, v in meta["checks"].items() if v["exit"] != 0 and v["violations"] > 0 and not v["harness_error"]]
         notes = os.path.join(a.src, "notes.md")
         if os.path.exists(notes):
             meta["needs_to_manifest"] = open(notes).read()[:1500]
